@@ -229,14 +229,20 @@ class _FPCore2FPy:
                 return cls(left, right, None)
         else:
             match e.name:
-                case 'fmin':
-                    left = self._visit(e.children[0], ctx)
-                    right = self._visit(e.children[1], ctx)
-                    return Min(None, (left, right), None)
-                case 'fmax':
-                    left = self._visit(e.children[0], ctx)
-                    right = self._visit(e.children[1], ctx)
-                    return Max(None, (left, right), None)
+                case 'fmin' | 'fmax':
+                    # C's fmin / fmax: a NaN operand is ignored, where FPy's
+                    # `min` / `max` propagate it
+                    a = self.gensym.fresh('t')
+                    b = self.gensym.fresh('t')
+                    ctx.stmts.append(Assign(a, None, self._visit(e.children[0], ctx), None))
+                    ctx.stmts.append(Assign(b, None, self._visit(e.children[1], ctx), None))
+                    pick = (Min if e.name == 'fmin' else Max)(None, (Var(a, None), Var(b, None)), None)
+                    return IfExpr(
+                        IsNan(None, Var(a, None), None),
+                        Var(b, None),
+                        IfExpr(IsNan(None, Var(b, None), None), Var(a, None), pick, None),
+                        None,
+                    )
                 case _:
                     raise NotImplementedError(f'unsupported binary operation {e.name}')
 
